@@ -203,7 +203,7 @@ def opKindOf (cmd : SimCmd) (histLast : Nat) : OpKind :=
   match cmd with
   | .init _ => .init
   | .op (.recExp k _ _ _ _) => .recExp k
-  | .op (.recSug k vS vE vT _ _ _) => .recSug k (vS ≥ histLast && vE ≥ histLast && vT ≥ histLast)
+  | .op (.recSug k vS vE vT _ _ _) => .recSug k (vS ≥ histLast && vE ≥ histLast && vT ≥ histLast) (vT ≥ histLast)
   | .op (.recTrial k vT _) => .recTrial k (vT ≥ histLast)
   | .op (.editMax k _) => .editMax k
   | _ => .env
